@@ -28,7 +28,12 @@ def main():
     wt = os.path.join(base, "wt")
     out = {"patch": patch, "property": pid, "tier": tier}
     try:
-        rc, o = sh(["git", "-C", "/repo", "worktree", "add", "--detach", wt, "HEAD"])
+        for attempt in range(8):
+            # (several evaluations may run side by side: git serialises worktree changes with a lock file)
+            rc, o = sh(["git", "-C", "/repo", "worktree", "add", "--detach", wt, "HEAD"])
+            if rc == 0:
+                break
+            time.sleep(1 + attempt)
         assert rc == 0, o
         # demo on the unchanged tree
         shutil.copy(demo, os.path.join(wt, "zz_seed_demo_test.go"))
